@@ -291,9 +291,15 @@ CLAIMS["C06"] = dict(
          "meta events, then #error with the exception exactly if it ends by raising, then #exit — nothing of the "
          "last two only for an abandoned generator (C06_events_of_activation; C06_rewritten_events for the rewritten "
          "function through the refinement theorem; C06_generated_events with no hypothesis left; "
-         "C06_enter_exactly_once). NOT proved: pairing of the loop markers over whole runs and #value exactly once "
-         "per normal completion (the latter is false: F7c, F7d); the oracle checks the merged meta-event stream of "
-         "generated programs against the bracket grammar. " + TIE,
+         "C06_enter_exactly_once). Loop markers: by a relational induction over statements (Proofs/Balance.lean: what a "
+         "statement appends never goes below the marker depth it started at and, unless the activation is abandoned, "
+         "comes back to it; expressions, targets and bindings record no marker), for every function of the fragment, "
+         "capture set treating #loop_y and #endloop_y alike, input, driver script and variable x, the depth of "
+         "#loop_x / #endloop_x along the whole activation never goes below zero and ends at zero however iterations "
+         "and the activation are left (C06_loop_markers_balanced; C06_rewritten_loop_markers_balanced for the "
+         "rewritten function; C06_generic_capture_symmetric). NOT proved: #value exactly once per normal completion "
+         "(false: F7c, F7d) and the #yield / #receive pairing over whole runs; the oracle checks the merged meta-event "
+         "stream of generated programs against the bracket grammar. " + TIE,
     design_ref="DESIGN.md section 5, C06",
     note=NOTE_M2 + "Known finding F7c (a return in a finally block cancels an exception after #error was delivered). "
          "An abandoned generator (closed, then yields again) gets no #exit: Python never resumes it.",
